@@ -19,6 +19,31 @@ type respScript struct {
 	CloseAfter bool
 	// fault before answering
 	Fault string // "", "close-before-response", "stall", "half-response"
+	Early bool   // respond right after the header section, without reading the body, then close
+}
+
+// peekTarget waits until the header section starting at off is complete and returns the request target ("" on failure).
+func peekTarget(bc *sys.BackendConn, off int, d time.Duration) string {
+	deadline := time.Now().Add(d)
+	for {
+		b := bc.Bytes()
+		if len(b) > off {
+			if i := bytes.Index(b[off:], []byte("\r\n\r\n")); i >= 0 {
+				line := b[off:]
+				if j := bytes.Index(line, []byte("\r\n")); j >= 0 {
+					parts := strings.Split(string(line[:j]), " ")
+					if len(parts) == 3 {
+						return parts[1]
+					}
+				}
+				return ""
+			}
+		}
+		if bc.EOF() || time.Now().After(deadline) {
+			return ""
+		}
+		bc.Fill(time.Until(deadline))
+	}
 }
 
 type world struct {
@@ -75,6 +100,14 @@ func (w *world) handler(name string) func(bc *sys.BackendConn) {
 	return func(bc *sys.BackendConn) {
 		off := 0
 		for {
+			if tgt := peekTarget(bc, off, 15*time.Second); tgt != "" {
+				if sc := w.script(tgt); sc != nil && sc.Early {
+					// answer as soon as the header section is complete, never read the body
+					w.note(tgt, seenReq{Backend: name, Conn: bc, Off: off})
+					fmt.Fprintf(bc.Conn, "HTTP/1.1 200 OK\r\nContent-Length: 5\r\nX-Echo-Target: %s\r\nConnection: close\r\n\r\nearly", tgt)
+					return
+				}
+			}
 			m, err := bc.ReadRequest(off, 15*time.Second)
 			if err != nil {
 				if err != ref.ErrIncomplete || len(bc.Bytes()) > off {
@@ -106,7 +139,11 @@ func (w *world) handler(name string) func(bc *sys.BackendConn) {
 				continue
 			}
 			body := "ok " + name
-			fmt.Fprintf(bc.Conn, "HTTP/1.1 200 OK\r\nContent-Length: %d\r\nX-Backend: %s\r\n\r\n%s", len(body), name, body)
+			if m.Method == "HEAD" {
+				fmt.Fprintf(bc.Conn, "HTTP/1.1 200 OK\r\nContent-Length: %d\r\nX-Backend: %s\r\nX-Echo-Target: %s\r\n\r\n", len(body), name, m.Target)
+				continue
+			}
+			fmt.Fprintf(bc.Conn, "HTTP/1.1 200 OK\r\nContent-Length: %d\r\nX-Backend: %s\r\nX-Echo-Target: %s\r\n\r\n%s", len(body), name, m.Target, body)
 		}
 	}
 }
